@@ -264,20 +264,42 @@ def layer_a(ctx, stats):
             ctx.disagree("literal_length: model vs len(...) folded by _to_c_expr", case, ml, r["len"])
         if bool(mguard) != bool(r.get("guard", True)) and r["res"][0] == "ok" and not lossy:
             stats["guard:model-vs-cpython-differ"] += 1
-        site_jobs.append((src, env, msites, mres, exact))
+        site_jobs.append((src, env, msites, mres, exact, r.get("py") if r.get("guard") else None, rt))
     # ---- call sites (a parse() per case): sample
     rng = ctx.rng
     n_sites = 1500 if thorough else 350
     pick = site_jobs if len(site_jobs) <= n_sites else rng.sample(site_jobs, n_sites)
+    pick = pick + [j for j in site_jobs if j[0].count(",") >= 6 and j not in pick]       # every bitmap-shaped expression
     pick = [j for j in pick if site_env_ok(j[1]) and "\n" not in j[0] and "#" not in j[0]]
     payload = []
-    for src, env, _, _, _ in pick:
+    for src, env, *_ in pick:
         ie = impl_env(env)
         payload += [["site", "blink", src, ie], ["site", "backlight", src, ie], ["site", "glyph", src, ie], ["site", "sleep", src, ie]]
     res = C.run_impl("c03_impl.py", {"cases": payload}) if payload else []
-    for k, (src, env, msites, mres, exact) in enumerate(pick):
+    for k, (src, env, msites, mres, exact, py, rt) in enumerate(pick):
         rb, rl, rg, rs = res[4 * k: 4 * k + 4]
         case = {"expr": src, "env": {kk: ("<marker>" if v is MARK else v) for kk, v in env.items()}}
+        # ---- oracle: the constant baked in at a call site is the value CPython gives the argument expression
+        if py is not None and py[0] == "ok":
+            pv = untag(py[1])
+            special = isinstance(pv, tuple) and bool(pv) and pv[0] == "special"
+            for site, ro, want in (("led.blink(<e>, 1)", rb, lambda v: int(v) if type(v) in (int, float, bool) else None),
+                                   ("sleep(<e>)", rs, lambda v: int(v) if type(v) in (int, float, bool) else None),
+                                   ("lcd.backlight(<e>)", rl, lambda v: bool(v) if type(v) in (int, float, bool) else None),
+                                   ("lcd.glyph(0, <e>)", rg, lambda v: [int(x) for x in v] if type(v) in (list, tuple) and all(type(x) in (int, float, bool) for x in v) else None)):
+                if ro[0] != "folded" or special:
+                    continue
+                got = untag(ro[1])
+                if isinstance(got, tuple) and got and got[0] == "special":
+                    continue
+                stats["oracle:site-folds"] += 1
+                try:
+                    exp = want(pv)
+                except (OverflowError, ValueError):
+                    exp = None
+                if exp is None or exp != got or type(exp) is not type(got):
+                    ctx.fail(f"the constant folded into {site} is not the run-time value of the argument", {**case, "runtime_env": rt, "site": site},
+                             exp if exp is not None else f"CPython value {pv!r}", got, key="fold-site")
         mnum, mbool, mgly = msites
         for name, mo, ro, conv in (("blink/_resolve_numeric_arg", mnum, rb, lambda w: w),
                                    ("backlight/_resolve_bool_arg", mbool, rl, lambda w: bool(w)),
